@@ -160,6 +160,10 @@ var c09Ops = []string{
 	`out.append(decode("[1, 2]", "json"))`,
 	`import shared_mod; out.append(shared_mod.triple(7))`,
 	`from shared_mod import triple as tr; out.append(tr(2))`,
+	`z := encode("payload-" + string(rec.A) + "-abcdefghijklmnopqrstuvwxyz", "gzip"); n := 0; for i := 0; i < 12; i++ { n += i }; out.append(string(decode(z, "gzip")))`,
+	`z := encode(string(nums), "gzip"); out.append(len(z) > 0); out.append(string(decode(z, "gzip")))`,
+	`t := spawn(func() { import statemod; return statemod.bump() }); import shared_mod; out.append(shared_mod.triple(t.wait()))`,
+	`t := spawn(func() { import shared_mod; return shared_mod.triple(5) }); tr := spawn(func() { import statemod; return statemod.bump() }); out.append([t.wait(), tr.wait()])`,
 	`import statemod; statemod.bump(); statemod.bump(); out.append(statemod.count)`,
 	`import statemod as sm; out.append(sm.bump() + sm.count)`,
 	`from statemod import bump as bmp; bmp(); import statemod; out.append(statemod.count)`,
@@ -177,7 +181,7 @@ func genC09Program(g *sim.Stream) string {
 	for i := 0; i < n; i++ {
 		op := c09Ops[g.Intn(len(c09Ops))]
 		// every statement gets its own variable names
-		for _, v := range []string{"n", "t", "tr", "sm", "bmp"} {
+		for _, v := range []string{"n", "t", "tr", "sm", "bmp", "z"} {
 			op = regexp.MustCompile(`\b`+v+`\b`).ReplaceAllString(op, fmt.Sprintf("%s%d", v, i))
 		}
 		b.WriteString(op)
